@@ -252,6 +252,14 @@ func (g *generator) assignNoLookup(ctx *builder.MethodContext, assignTo *builder
 	return nil, typeMismatch(source, target)
 }
 
+// spread passes a slice to the variadic parameter it was declared for.
+func spread(arg method.Arg, code *jen.Statement) *jen.Statement {
+	if arg.Variadic {
+		return code.Clone().Op("...")
+	}
+	return code
+}
+
 // argType renders the type of a parameter as it was declared.
 func argType(arg method.Arg) jen.Code {
 	if arg.Variadic && arg.Type.List && !arg.Type.ListFixed {
@@ -308,18 +316,14 @@ func (g *generator) CallMethod(
 				return nil, nil, formatErr("Could not satisfy all required context parameters:\n" + strings.Join(method.AvailableContextDebug(definition.Context, ctx.AvailableContext), "\n"))
 			}
 			if id, ok := ctx.Context[arg.Type.String]; ok {
-				params = append(params, id.Code.Clone())
+				params = append(params, spread(arg, id.Code.Clone()))
 			}
 		case method.ArgUseSource:
 			if !source.AssignableTo(definition.Source) && !definition.TypeParams {
 				cause := fmt.Sprintf("Method source type mismatches with conversion source: %s != %s", definition.Source.String, source.String)
 				return nil, nil, formatErr(cause)
 			}
-			if arg.Variadic {
-				params = append(params, sourceID.Code.Clone().Op("..."))
-			} else {
-				params = append(params, sourceID.Code)
-			}
+			params = append(params, spread(arg, sourceID.Code))
 		case method.ArgUseMultiSource:
 			panic("multi source aren't supported right now. https://github.com/jmattheis/goverter/issues/143")
 		case method.ArgUseTarget:
@@ -435,9 +439,9 @@ func (g *generator) delegateMethod(
 		case method.ArgUseInterface:
 			params = append(params, jen.Id(xtype.ThisVar))
 		case method.ArgUseContext:
-			params = append(params, ctx.Context[arg.Type.String].Code.Clone())
+			params = append(params, spread(arg, ctx.Context[arg.Type.String].Code.Clone()))
 		case method.ArgUseSource:
-			params = append(params, sourceID.Code)
+			params = append(params, spread(arg, sourceID.Code))
 		case method.ArgUseMultiSource:
 			panic("not supported atm")
 		case method.ArgUseTarget:
